@@ -1,6 +1,7 @@
 package rules
 
 import (
+	"sort"
 	"fmt"
 	"go/token"
 	"go/types"
@@ -47,6 +48,23 @@ func runC11(c *Ctx) {
 	}
 	ruleSurvive(c)
 	ruleKeysFirst(c, "KEYSFIRST")
+	// a reload acquires and releases handles of a shared listener while its reader goroutine runs: the state they share
+	// (socket, channels, count) must be guarded or fixed before the reader starts — a channel replaced under the reader's
+	// feet leaves it parked on one nobody sends to any more, and the address goes dead for every generation
+	var lt []string
+	for _, m := range ms {
+		lt = append(lt, m.T)
+		if m.handleT != "" {
+			lt = append(lt, m.handleT)
+		}
+		for h := range m.holders {
+			if h != m.T {
+				lt = append(lt, h)
+			}
+		}
+	}
+	sort.Strings(lt)
+	ruleGuardedTypes(c, "SHAREDSTATE", lt, 4, 12)
 }
 
 // C11.SURVIVE
